@@ -686,10 +686,14 @@ impl Parameter {
             Parameter::Path(ref path) => {
                 if let Some(rc_context) = rc.context() {
                     let result = rc.evaluate2(rc_context.borrow(), path)?;
-                    Ok(PathAndJson::new(
-                        Some(path.raw().to_owned()),
-                        ScopedJson::Derived(result.as_json().clone()),
-                    ))
+                    // the value is cloned out of the replaced context; a path that
+                    // designates nothing stays missing
+                    let value = if result.is_missing() {
+                        ScopedJson::Missing
+                    } else {
+                        ScopedJson::Derived(result.as_json().clone())
+                    };
+                    Ok(PathAndJson::new(Some(path.raw().to_owned()), value))
                 } else {
                     let result = rc.evaluate2(ctx, path)?;
                     Ok(PathAndJson::new(Some(path.raw().to_owned()), result))
